@@ -48,7 +48,7 @@ def generate(ctx):
                "inplace": rng.random() < 0.5, "tc": round(u(0.4, 50.0), 3) if cont else rng.choice([2.0, 5.0, 20.0, 0.7]),
                "amp": round(rng.choice([-1, 1]) * u(0.01, 3.0), 3) if cont else rng.choice([1.0, 0.5, -1.0, 2.5, -0.25]),   # documented: nonzero
                "scale": round(u(-2.0, 2.5), 3) if cont else rng.choice([1.0, -0.5, 0.0, 2.0]),
-               "obs": rng.choice(["bool", "real"]), "obs_dtype": rng.choice([None, "bool", "int64", "float32"]),
+               "obs": rng.choice(["bool", "real"]), "obs_dtype": rng.choice([None, "bool", "int64", "float32"]), "caller_reuses_buffer": rng.random() < 0.4,
                "tolerance": rng.choice([None, 0.1, 0.5, 0.25]), "target": rng.choice([1.0, 0.0, 2.5]),
                "initial": rng.choice(["inf", "zero", "nan"]), "alpha": round(u(0.0, 1.0), 4) if cont else rng.choice([0.0, 0.1, 0.5, 0.9, 1.0]),
                "p": rng.choice([0.1, 0.3, 0.6, 1.0, 0.0]), "shape": list(rng.choice([(3,), (2, 2), (1,), (2, 1, 2)])),
@@ -260,6 +260,13 @@ def _reducer(ctx, desc):
                     r(xt, torch.from_numpy(c.copy()))
                 else:
                     r(xt)
+                if desc.get("caller_reuses_buffer"):
+                    # the caller's tensor is its own: overwritten in place right after the call (a reused input buffer)
+                    if xt.dtype == torch.bool:
+                        xt.logical_not_()
+                    else:
+                        xt.mul_(0).add_(77)
+                    ctx.count("observations_overwritten_by_the_caller_afterwards")
                 exp = orc.step(x, c, dt)
                 got = r.peek()
                 first = n_since == 0
